@@ -3,12 +3,14 @@
 // composed with the REAL destination-side message handlers (evm/executor.TransferMessageHandler,
 // substrate/executor.SubstrateMessageHandler, btc/executor.FungibleMessageHandler).  Observed:
 // the proposal envelope, its Data bytes, the gasLimit metadata - or the error class.
+// A Case is either ONE deposit through fresh handler objects (the implementation always gets its own
+// copy of the case's bytes: the case keeps hex strings) or a history over one set of long-lived objects
+// (seq.go, seqgen.go).
 package main
 
 import (
 	"encoding/hex"
 	"errors"
-	"fmt"
 	"math/big"
 	"time"
 
@@ -39,18 +41,25 @@ type Case struct {
 	HR     string `json:"hr,omitempty"`     // hex: handler response (EVM sources)
 	Amount string `json:"amount,omitempty"` // decimal satoshi (btc source)
 	Note   string `json:"note,omitempty"`   // generator's label (not used by the run)
+	// place of an EVM deposit on its source chain (pool entries of a history only)
+	Block  uint64 `json:"block,omitempty"`
+	Tx     string `json:"tx,omitempty"` // hex, 32 bytes
+	LogIdx uint   `json:"logIdx,omitempty"`
+	// a history over one set of long-lived objects (seq.go); the fields above are unused then
+	Seq *SeqCase `json:"seq,omitempty"`
 }
 
 type Obs struct {
-	Class  string  `json:"class"` // prop | btcprop | err | panic
-	SrcDom uint8   `json:"srcDom,omitempty"`
-	DstDom uint8   `json:"dstDom,omitempty"`
-	Nonce  uint64  `json:"nonce,omitempty"`
-	Rid    string  `json:"rid,omitempty"`
-	Gas    *uint64 `json:"gas,omitempty"`
-	Data   string  `json:"data,omitempty"`
-	Amount uint64  `json:"amount,omitempty"`
-	Where  string  `json:"where,omitempty"` // source | destination (informative)
+	Class  string   `json:"class"` // prop | btcprop | err | panic
+	SrcDom uint8    `json:"srcDom,omitempty"`
+	DstDom uint8    `json:"dstDom,omitempty"`
+	Nonce  uint64   `json:"nonce,omitempty"`
+	Rid    string   `json:"rid,omitempty"`
+	Gas    *uint64  `json:"gas,omitempty"`
+	Data   string   `json:"data,omitempty"`
+	Amount uint64   `json:"amount,omitempty"`
+	Where  string   `json:"where,omitempty"` // source | destination (informative)
+	Occs   []OccObs `json:"occs,omitempty"`  // class seq: one entry per handled deposit of the history
 }
 
 // ---- the real code ---------------------------------------------------------------------------------------
@@ -153,6 +162,9 @@ func destination(c Case, m *message.Message) (p *proposal.Proposal, class string
 }
 
 func run(c Case) Obs {
+	if c.Seq != nil {
+		return runSeq(c.Seq)
+	}
 	m, class := source(c)
 	if class != "" {
 		return Obs{Class: class, Where: "source"}
@@ -161,21 +173,7 @@ func run(c Case) Obs {
 	if class != "" {
 		return Obs{Class: class, Where: "destination"}
 	}
-	switch d := p.Data.(type) {
-	case transfer.TransferProposalData:
-		o := Obs{Class: "prop", SrcDom: p.Source, DstDom: p.Destination, Nonce: d.DepositNonce, Rid: hex.EncodeToString(d.ResourceId[:]), Data: hex.EncodeToString(d.Data)}
-		if g, ok := d.Metadata["gasLimit"]; ok {
-			if u, ok := g.(uint64); ok {
-				o.Gas = &u
-			} else {
-				return Obs{Class: "err", Where: "gasLimit metadata is not a uint64"}
-			}
-		}
-		return o
-	case btcexec.BtcTransferProposalData:
-		return Obs{Class: "btcprop", SrcDom: p.Source, DstDom: p.Destination, Nonce: d.DepositNonce, Rid: hex.EncodeToString(d.ResourceId[:]), Amount: d.Amount, Data: hex.EncodeToString([]byte(d.Recipient))}
-	}
-	return Obs{Class: "err", Where: fmt.Sprintf("unknown proposal data %T", p.Data)}
+	return observe(p)
 }
 
 // ---- Coq printing ------------------------------------------------------------------------------------------
@@ -186,28 +184,10 @@ var dkind = map[string]string{"evm": "DEvm", "sub": "DSub", "btc": "DBtcK"}
 func hexLit(s string) string { return `"` + s + `"%string` }
 
 func coq(c Case, o Obs) string {
-	amount := "0%N"
-	if c.Src == "btc" {
-		amount = c.Amount + "%N"
+	if c.Seq != nil {
+		return coqSeq(c.Seq, o)
 	}
-	dep := fmt.Sprintf("(dep %s %s %s %s %s %s %s)", vgen.N(uint64(c.SrcDom)), vgen.N(uint64(c.DstDom)), vgen.N(c.Nonce),
-		hexLit(c.Rid), hexLit(c.Data), hexLit(c.HR), amount)
-	var obs string
-	switch o.Class {
-	case "prop":
-		gas := "None"
-		if o.Gas != nil {
-			gas = vgen.Some(vgen.N(*o.Gas))
-		}
-		obs = fmt.Sprintf("(IProp %s %s %s %s %s %s)", vgen.N(uint64(o.SrcDom)), vgen.N(uint64(o.DstDom)), vgen.N(o.Nonce), hexLit(o.Rid), gas, hexLit(o.Data))
-	case "btcprop":
-		obs = fmt.Sprintf("(IBtc %s %s %s %s %s %s)", vgen.N(uint64(o.SrcDom)), vgen.N(uint64(o.DstDom)), vgen.N(o.Nonce), hexLit(o.Rid), vgen.N(o.Amount), hexLit(o.Data))
-	case "panic":
-		obs = "IPanic"
-	default:
-		obs = "IErr"
-	}
-	return "Case " + skind[c.Src] + " " + dkind[c.Dst] + " " + dep + " " + obs
+	return "Case " + skind[c.Src] + " " + dkind[c.Dst] + " " + coqDep(c) + " " + coqObs(o)
 }
 
 func main() {
@@ -219,14 +199,22 @@ func main() {
 		Run:       run,
 		Coq:       coq,
 		Kind: func(c Case) string {
+			if c.Seq != nil {
+				return seqKind(c.Seq)
+			}
 			k := c.Src + "->" + c.Dst
 			if !wellFormed(c) {
 				k += ":malformed"
 			}
 			return k
 		},
-		NonTrivial: func(c Case, o Obs) bool { return wellFormed(c) && (o.Class == "prop" || o.Class == "btcprop") },
-		ShardSize:  250,
-		Rule:       "per source handler: amounts from the width table (1, 8, 63..65, 128, 255, 256 bits, 0, 2^256-1), recipient lengths 0,1,19,20,21,31,32,33,64,255 + random, optional-message tails absent / 33 / 64 / 64+n bytes with fee words at the 2^64 and 2^256-100000 boundaries, handler responses absent / 32 / 33+ bytes, ERC1155 vectors of 0..6 ids, generic parts of 0..255 bytes, BTC amounts up to 2^64 satoshi and beyond; all (source, destination) handler pairs; envelopes incl. domains 0/255 and nonce 2^64-1; plus a malformed stream (truncations, hostile length words) on which only model = implementation is compared; distinct = distinct input JSON; non-trivial = well-formed deposit for which a proposal was prepared",
+		NonTrivial: func(c Case, o Obs) bool {
+			if c.Seq != nil {
+				return seqNonTrivial(c.Seq, o)
+			}
+			return wellFormed(c) && (o.Class == "prop" || o.Class == "btcprop")
+		},
+		ShardSize: 170,
+		Rule:      "per source handler: amounts from the width table (1, 8, 63..65, 128, 255, 256 bits, 0, 2^256-1), recipient lengths 0,1,19,20,21,31,32,33,64,255 + random, optional-message tails absent / 33 / 64 / 64+n bytes with fee words at the 2^64 and 2^256-100000 boundaries, handler responses absent / 32 / 33+ bytes, ERC1155 vectors of 0..6 ids, generic parts of 0..255 bytes, BTC amounts up to 2^64 satoshi and beyond; all (source, destination) handler pairs; envelopes incl. domains 0/255 and nonce 2^64-1; plus a malformed stream (truncations, hostile length words) on which only model = implementation is compared; distinct = distinct input JSON; non-trivial = well-formed deposit for which a proposal was prepared; plus histories (kind seq:...) of 2..8 steps over ONE set of long-lived objects wired as app.go does (scripted ChainClient -> events.Listener -> DepositEventHandler / RetryV1EventHandler / RetryMessageHandler -> one ETHDepositHandler with a HandlerMatcher that fails on script; one substrate and one btc deposit handler; one message handler per destination): 3..7 EVM deposits of 2..4 resources (ids differing in one byte in half of the histories) + 0..3 substrate/btc deposits, block scans / re-scans / v1 and v2 retries of the same deposit, scripted lookup / fetch / block-fetch failures followed by the retried request (half of the histories are fault free), batches routed as Relayer.route does, concurrent steps; every proposal read when built, when its batch is written and at the end of the history; non-trivial history = at least two steps and a proposal for a well-formed deposit",
 	})
 }
